@@ -81,7 +81,7 @@ def universes(thorough):
     """(cards, nrows): TLC enumerates EVERY multiset of nrows rows over the joint state space"""
     if thorough:
         spec = [((2, 3), 1), ((2, 3), 2), ((2, 3), 3), ((2, 3), 4), ((3, 3), 2), ((3, 3), 3), ((1, 3), 3), ((2, 2, 2), 2),
-                ((2, 2, 2), 3), ((2, 3, 2), 3), ((3, 2, 3), 2)]
+                ((2, 2, 2), 3), ((2, 3, 2), 3)]
     else:
         spec = [((2, 3), 1), ((2, 3), 2), ((2, 3), 3), ((2, 2, 2), 2), ((1, 3), 2)]
     out = []
@@ -170,11 +170,11 @@ def make_groups(insts, recs, dags, rng, thorough):
         if n <= 2:
             pick = list(range(len(classes)))
         elif universe:
-            pick = rng.sample(range(len(classes)), 1 if not thorough else 3)
+            pick = rng.sample(range(len(classes)), 1 if not thorough else 2)
         elif n == 3:
             pick = list(range(len(classes)))
         else:
-            pick = rng.sample(range(len(classes)), min(len(classes), 60 if thorough else 8))
+            pick = rng.sample(range(len(classes)), min(len(classes), 40 if thorough else 8))
         # whole classes are handed over, so every pair of equivalent DAGs inside a picked class is compared
         g["dags"] = [dags[n]["by_key"][k] for ci in pick for k in classes[ci]]
         g["full"] = not universe
